@@ -179,8 +179,17 @@ Fixpoint tree_sorted (n : snode) {struct n} : bool :=
     names_sorted kids && (fix go (l : list snode) : bool := match l with [] => true | k :: r => tree_sorted k && go r end) kids
   end.
 
-Definition dec_case (input : sx) : option case :=
+(* an optional 7th field says how srcRoot / dstRoot are NAMED to copy.Copy (real path, through a
+   symlinked ancestor, a symlink to the real root): the harness snapshots the real directories
+   and the expected result does not depend on it, so the model ignores the field *)
+Definition strip_rootmode (input : sx) : sx :=
   match input with
+  | SL [sv; dv; src; dst; os; sec; SN _] => SL [sv; dv; src; dst; os; sec]
+  | _ => input
+  end.
+
+Definition dec_case (input0 : sx) : option case :=
+  match strip_rootmode input0 with
   | SL [sv; dv; SB src; SB dst; os; sec] =>
     sv' <- dec_view sv ;; dv' <- dec_view dv ;; o <- dec_opts os ;; sec' <- sx_bool sec ;;
     let '(sr, _) := sroot_of_view sv' in
